@@ -187,7 +187,10 @@ Scenario(c) ==
     [] c.op = "shape" ->
          LET n == c.N * c.r
              src == Mat([i \in 1..n |-> (i * 3 + Seed) % 1000003], n)     \* pairwise distinct values
-         IN [op |-> "shape", N |-> c.N, src |-> src, grouped |-> Group(src, c.N), transposed |-> Transpose(src, c.N)]
+         \* `spare`: the owned vector handed to flatten_vector_elements is also built with this much unused
+         \* capacity — the result is a function of the element sequence alone
+         IN [op |-> "shape", N |-> c.N, src |-> src, grouped |-> Group(src, c.N), transposed |-> Transpose(src, c.N),
+             spare |-> 1 + ((c.r + c.N) % 5)]
 
 Emit == PrintT(<<"REPLAY", ToJson(Scenario(case))>>)
 =============================================================================
